@@ -482,6 +482,16 @@ def rules(rep, m):
         r12.ok()
 
 
+    # R-C10-15 -----------------------------------------------------------
+    r15 = rep.rule("R-C10-15", "fixed-size buffers: every subscript of an object of array type T[N] and every bounded C-library "
+                   "write into it (snprintf / memcpy / memset / strncpy with a count) stays inside the N elements; index and count "
+                   "are bounded through literals, sizeof, strnlen(s, K) <= K, x % K, x & mask, single-definition locals and for "
+                   "variables with constant bounds; other accesses are listed as undecided", floor=15)
+    from . import scratch as _scr
+    dec_, und_ = _scr.check_fixed_buffers(rep, r15, m)
+    if dec_ < 15:
+        raise AnalysisBroken("R-C10-15 decided only %d fixed-size buffer accesses" % dec_)
+
     # R-C10-14 -----------------------------------------------------------
     r14 = rep.rule("R-C10-14", "clearing the event queue forgets every key: the wipe covers the whole hash map of the current size "
                    "(shared with R-C02-5 / R-C01-9) - a key that survives is found again, cancels an unrelated live event, and "
